@@ -1,10 +1,12 @@
 import PromVerif.Drv.C13
+import PromVerif.Drv.Core
 import PromVerif.Drv.Expo
 namespace PromVerif.Drv
 
 def dispatch (m : String) (args : List String) : String :=
   match m with
   | "c13" => C13.handle args
+  | "core" => Core.handle args
   | "expo" => Expo.handle args
   | _ => "err unknown-module"
 
